@@ -180,43 +180,47 @@ def Dec.bytesOp (d : Dec) : Dec × DecOut :=
   | .err => (d, .err)
   | .panic => (d, .panic)
 
+/-- `Skip`, safe mode only: re-read the key at `bof` and compare it with the expected tag / wire type -/
+def Dec.skipCheck (d : Dec) (tag wt bof sz : Nat) : Res Unit :=
+  if d.fast then .ok () else
+  match sliceFrom d.p bof with
+  | .ok s =>
+    match decodeVarint s with
+    | .ok (v, n) =>
+      if n ≠ sz then .err
+      else if v >>> 3 ≠ tag ∨ v &&& 7 ≠ wt then .err
+      else .ok ()
+    | .err => .err
+    | .panic => .panic
+  | _ => .panic
+
+/-- `Skip`: number of payload bytes to skip for the wire type -/
+def Dec.skipLen (d : Dec) (wt : Nat) : Res Nat :=
+  if wt = wtVarint then
+    match sliceFrom d.p d.off with
+    | .ok s => (decodeVarint s).map (fun r => r.2)
+    | _ => .panic
+  else if wt = wtFixed64 then .ok 8
+  else if wt = wtLen then
+    match sliceFrom d.p d.off with
+    | .ok s =>
+      match decodeVarint s with
+      | .ok (l, n) => if n = 0 then .err else if l > maxFieldLen then .err else .ok (n + l)
+      | .err => .err
+      | .panic => .panic
+    | _ => .panic
+  else if wt = wtFixed32 then .ok 4
+  else .err
+
 def Dec.skip (d : Dec) (tag wt : Nat) : Dec × DecOut :=
   if d.off ≥ d.len then (d, .err) else
   let sz := sizeOfTagKey tag
   let bof := d.off - sz            -- clamped at 0, as the source does
-  let check : Res Unit :=
-    if d.fast then .ok () else
-    match sliceFrom d.p bof with
-    | .ok s =>
-      match decodeVarint s with
-      | .ok (v, n) =>
-        if n ≠ sz then .err
-        else if v >>> 3 ≠ tag ∨ v &&& 7 ≠ wt then .err
-        else .ok ()
-      | .err => .err
-      | .panic => .panic
-    | _ => .panic
-  match check with
+  match d.skipCheck tag wt bof sz with
   | .err => (d, .err)
   | .panic => (d, .panic)
   | .ok () =>
-    let skipped : Res Nat :=
-      if wt = wtVarint then
-        match sliceFrom d.p d.off with
-        | .ok s => (decodeVarint s).map (·.2)
-        | _ => .panic
-      else if wt = wtFixed64 then .ok 8
-      else if wt = wtLen then
-        match sliceFrom d.p d.off with
-        | .ok s =>
-          match decodeVarint s with
-          | .ok (l, n) => if n = 0 then .err else if l > maxFieldLen then .err else .ok (n + l)
-          | .err => .err
-          | .panic => .panic
-        | _ => .panic
-      else if wt = wtFixed32 then .ok 4
-      else .err
-    match skipped with
+    match d.skipLen wt with
     | .ok k =>
       if d.off + k > d.len then (d, .err)
       else ({ d with off := d.off + k }, .ok (.bytes ((d.p.drop bof).take (d.off + k - bof))))
